@@ -63,11 +63,16 @@ let vs_spec (pairs : (n * n) list) (effw : n -> n) (idx_of : n -> nat) probes to
 
 let fits pairs = ZA.leq (z_of_n (sum_weights pairs)) (z_of_n max_total)
 
+(* spec_idx ops id = if eff ops id = 0 then 0 else rank (eff_pairs ops) (id, eff ops id); evaluated
+   on the pair set computed once (eff_pairs is quadratic), not through PosSpec.spec_idx per probe *)
 let small_spec ops probes obs =
   let pairs = eff_pairs ops in
+  let effw id = (match List.assoc_opt id pairs with Some w -> w | None -> N0) in
+  let idx_of id = (match List.assoc_opt id pairs with
+                   | Some w -> rank pairs (id, w) | None -> nat_of_int 0) in
   match obs with
   | ["PANIC"] -> not (fits pairs)
-  | _ -> fits pairs && vs_spec pairs (eff ops) (spec_idx ops) probes obs
+  | _ -> fits pairs && vs_spec pairs effw idx_of probes obs
 
 let eval inp obs =
   let groups = split_on ";" inp in
